@@ -178,6 +178,17 @@ func solveAll(obls []*Obligation, dir string, timeoutS int, seed int, all bool, 
 			q := o.decls.Query(o.Asms, o.Goal, o.GetVals)
 			file := filepath.Join(dir, fmt.Sprintf("%04d_%s.smt2", i, fileBase(o.Name)))
 			o.Res = solve(q, file, timeoutS, seed, all)
+			defer func() {
+				// disk: a property produces up to 1.5 GB of queries; only those that did not come out as
+				// expected are worth keeping for inspection (LIMEVC_KEEP_SMT=1 keeps everything)
+				good := "unsat"
+				if o.Kind == "cover" {
+					good = "sat"
+				}
+				if o.Res != nil && o.Res.Status == good && os.Getenv("LIMEVC_KEEP_SMT") == "" {
+					os.Remove(file)
+				}
+			}()
 			if o.Res.Status == "unknown" && !all && o.Res.Solver == "none" {
 				// nobody answered within the quick budget (a loaded machine, or a hard goal): one
 				// more attempt with all back ends at once and four times the budget before the
